@@ -3825,9 +3825,11 @@ class CaseNode(Node):
                         ProgramData.imbue(DFTransition(symbol).to(next_state), DTAG.PARENT, upstream_metas[0]), 
                         allow_replace=True)
 
-            # check if we need else (is this a finishing state)
+            # check if we need else (is this a finishing state). A finishing state only keeps the symbols which a pattern that continues
+            # here on "anything else" explicitly excludes (end-of-input above all): its Else must not swallow them
             if converted_states[processing] in new_dfa.accepting_states:
-                continue
+                if DFTransition.Else in actual_else or not any(DFTransition.Else in x.on_values for x in converted_states[processing].transitions):
+                    continue
 
             if DFTransition.Else in actual_else:
                 # just use it
@@ -3910,7 +3912,9 @@ class CaseNode(Node):
             # Is there a sub-DFA (actual clause to execute) for the else transition?
             if original_backreference[None] is not None:
                 # Find all transitions that would be pointing to a nomatch...
-                for trans in decider_dfa.transitions_pointing_to(current_error_handlers[ErrorReasons.NO_MATCH]):
+                for state, trans in decider_dfa.transitions_pointing_to(current_error_handlers[ErrorReasons.NO_MATCH], include_states=True):
+                    if state in decider_dfa.accepting_states:
+                        continue # a clause is complete here: this is where the case ends, not a mismatch
                     # ... and reattach them to the new else state machine
                     trans.to(sub_dfas[original_backreference[None]].starting_state).attach(*else_actions).handles_else()
                     ProgramData.imbue(trans, DTAG.NAME, "else action on case node")
@@ -3926,7 +3930,9 @@ class CaseNode(Node):
                 new_state = DFState()
                 decider_dfa.mark_accepting(new_state)
                 decider_dfa.add(new_state)
-                for trans in decider_dfa.transitions_pointing_to(current_error_handlers[ErrorReasons.NO_MATCH]):
+                for state, trans in decider_dfa.transitions_pointing_to(current_error_handlers[ErrorReasons.NO_MATCH], include_states=True):
+                    if state in decider_dfa.accepting_states:
+                        continue # a clause is complete here: this is where the case ends, not a mismatch
                     trans.to(new_state).attach(*else_actions, prepend=True).fallthrough().handles_else()  # this is an error handler, make sure it's a fallthrough
                     # give the transition better debug info
                     ProgramData.imbue(trans, DTAG.NAME, "else action on case node")
